@@ -85,7 +85,32 @@ class Triples(Stream):
         except Exception as e:
             obs = {'err': type(e).__name__}
         mutated = [x.__dict__ for x in (a, b, c)] != snap
-        return {'obs': obs, 'mutated': mutated}
+        # observations judged by the oracle only (not part of the Coq case): augmented assignment on an
+        # aliased name must not modify the operand, and a copied / pickled value must behave like the original
+        extra = {}
+        try:
+            import pickle
+            a2, b2 = mk(case[0]), mk(case[1])
+            x = a2
+            x += b2
+            y = mk(case[0])
+            y0 = y
+            y -= b2
+            extra['iadd'] = [vals(x), vals(a2), x is a2]
+            extra['isub'] = [vals(y), vals(y0), y is y0]
+            a3 = mk(case[0])
+            clones = {'deepcopy': copy.deepcopy(a3), 'copy': copy.copy(a3), 'pickle': pickle.loads(pickle.dumps(a3))}
+            extra['clones'] = {}
+            for nm, cl in clones.items():
+                try:
+                    extra['clones'][nm] = [vals(cl + b2), vals(b2 + cl), vals(cl - b2), vals(b2 - cl),
+                                           cl > b2, cl < b2, b2 > cl, b2 < cl, cl == a3, a3 == cl,
+                                           (cl - b2).negative_fields(), (b2 - cl).negative_fields()]
+                except Exception as e:
+                    extra['clones'][nm] = {'err': type(e).__name__ + ': ' + str(e)[:60]}
+        except Exception as e:
+            extra['err'] = type(e).__name__ + ': ' + str(e)[:80]
+        return {'obs': obs, 'mutated': mutated, 'extra': extra}
 
     def to_coq(self, case, o):
         a, b, c = case
@@ -96,6 +121,26 @@ class Triples(Stream):
         """the laws of the property statement evaluated directly on implementation results"""
         if o['mutated']:
             return 'an operand was modified'
+        ex = o.get('extra') or {}
+        if 'err' in ex:
+            return 'augmented assignment / copy of a capacity raised ' + ex['err']
+        if ex:
+            a_, b_ = case[0], case[1]
+            if ex['iadd'][0] != [x + y for x, y in zip(a_, b_)] or ex['isub'][0] != [x - y for x, y in zip(a_, b_)]:
+                return 'a += b / a -= b does not give a+b / a-b'
+            if ex['iadd'][1] != a_ or ex['isub'][1] != a_ or ex['iadd'][2] or ex['isub'][2]:
+                return "an operand was modified by augmented assignment ('x = a; x += b' changed a)"
+            fs_ = self.fields()
+            for nm, r in ex['clones'].items():
+                if isinstance(r, dict):
+                    return 'arithmetic on a %s of a capacity raised %s' % (nm, r['err'])
+                add_, sub_, subr_ = [x + y for x, y in zip(a_, b_)], [x - y for x, y in zip(a_, b_)], [y - x for x, y in zip(a_, b_)]
+                exp = [add_, add_, sub_, subr_,
+                       all(x >= y for x, y in zip(a_, b_)), all(x <= y for x, y in zip(a_, b_)),
+                       all(y >= x for x, y in zip(a_, b_)), all(y <= x for x, y in zip(a_, b_)), True, True,
+                       [f for f, x in zip(fs_, sub_) if x < 0], [f for f, x in zip(fs_, subr_) if x < 0]]
+                if r != exp:
+                    return 'a %s of a capacity does not behave like the original (not field by field)' % nm
         obs = o['obs']
         if isinstance(obs, dict):
             return 'operation raised ' + obs['err']
